@@ -105,6 +105,9 @@ def cross_process(h: Harness):
     for a, r, gname in (("gpx", "dsge", "plain"), ("gpx", "dsge", "full"), ("gpx", "sge", "plain"), ("gpx", "tree", "plain"),
                         ("rs", "tree", "weighted"), ("gp", "ge", "weighted"), ("hc", "sge", "weighted"), ("gp", "tree-pi", "weighted")):
         configs.append([a, r, gname, 6, {"gp": 30, "gpx": 40}.get(a, 12)])
+    # sources created without a seed argument (the default seed); strings over an alphabet of characters
+    for a, r, gname, sd in (("gp", "tree", "plain", None), ("rs", "ge", "full", None), ("gp", "tree", "strs", 3), ("rs", "ge", "strs", 3), ("hc", "dsge", "strs", 3)):
+        configs.append([a, r, gname, sd, {"gp": 30}.get(a, 12)])
     # a grammar from the library's own seeded generator of benchmark grammars
     for a, r in (("gp", "tree"), ("rs", "ge"), ("hc", "dsge")):
         configs.append([a, r, "synthetic", 8, {"gp": 30}.get(a, 12)])
